@@ -101,6 +101,35 @@ ostream& operator<< (ostream& os, const TriConstraint& c) {
        <<  " left=" << c.leftOf; 
     return os;
 }
+// defined in topology_constraints_constructor.cpp
+bool validTurn(EdgePoint* u, EdgePoint* v, EdgePoint* w);
+/*
+ * When two consecutive bends of a path have come to lie on the same point
+ * (opposite corners of two touching rectangles) both of their
+ * BendConstraints become tight at the same moment, but only one of the two
+ * bends is a proper turn between the points on either side of the pair: that
+ * one has to stay, whichever of the two constraints was picked.
+ * @return the bend to remove when the constraint of bend p is satisfied
+ */
+static EdgePoint* redundantBend(EdgePoint* p) {
+    const double eps=1e-7;
+    EdgePoint *o=p->inSegment->start, *q=p->outSegment->end;
+    if(p->outSegment->length()<eps && q->outSegment!=nullptr
+            && q->rectIntersect!=EdgePoint::CENTRE) {
+        EdgePoint *r=q->outSegment->end;
+        if(r!=p && validTurn(o,p,r) && !validTurn(o,q,r)) {
+            return q;
+        }
+    }
+    if(p->inSegment->length()<eps && o->inSegment!=nullptr
+            && o->rectIntersect!=EdgePoint::CENTRE) {
+        EdgePoint *n=o->inSegment->start;
+        if(n!=p && validTurn(n,p,q) && !validTurn(n,o,q)) {
+            return o;
+        }
+    }
+    return p;
+}
 /*
  * The bend has become straight, remove bend
  */
@@ -117,9 +146,10 @@ void BendConstraint::satisfy()
     //      has the potential to introduce many bugs, so I will leave it
     //      for now.  -- mjwybrow
     vpsc::Dim dim = scanDim;
-    Node* node=bendPoint->node;
-    double pos=bendPoint->pos(vpsc::conjugate(scanDim));
-    Segment* s=bendPoint->prune(scanDim);
+    EdgePoint* victim=redundantBend(bendPoint);
+    Node* node=victim->node;
+    double pos=victim->pos(vpsc::conjugate(scanDim));
+    Segment* s=victim->prune(scanDim);
     // create a new StraightConstraint to replace the BendConstraint
     s->createStraightConstraint(dim, node, pos);
     FILE_LOG(logDEBUG)<<"BendConstraint::satisfy()...done.";
